@@ -2,9 +2,9 @@ package props
 
 import (
 	"fmt"
-	"sort"
 	"go/constant"
 	"go/types"
+	"sort"
 
 	"golang.org/x/tools/go/ssa"
 
